@@ -65,7 +65,10 @@ def scn_fold(ctx):
     kinds = [ctx.choice(4, "kind%d" % i) for i in range(n)]  # 0 value 1 error 2 cancelled 3 never
     vals = [ctx.int("v%d" % i, -1, 1) for i in range(n)]
     excs = [Boom("e%d" % i) for i in range(n)]
-    out = (f_or if op == "or" else f_and)(*ins)
+    args = list(ins)
+    if p.get("dup"):
+        args.append(ins[0])  # a duplicate input: the fold runs over the distinct completions
+    out = (f_or if op == "or" else f_and)(*args)
     ths = _completers(ctx, ins, kinds, vals, excs, p.get("split", [0]))
     cres = []
     if p.get("cancel"):
@@ -121,7 +124,7 @@ def scn_fold(ctx):
     ctx.reach("fold-checked")
     if got[0] != "pending":
         for i in range(n):
-            if not ins[i].done():
+            if kinds[i] == 3:
                 ctx.check("decided-output-cancels-pending-inputs", len(ins[i].cancel_calls) >= 1, "input %d still pending and never cancelled" % i)
                 ctx.reach("pending-cancel-checked")
     return True
@@ -139,4 +142,5 @@ def plan(tier, seed):
     for op in ("or", "and"):
         items.append(dict(scenario="fold", params=dict(op=op, n=3, split=[0]), bounds=dict(P=P)))
         items.append(dict(scenario="fold", params=dict(op=op, n=2, split=[0], cancel=True), bounds=dict(P=P)))
+        items.append(dict(scenario="fold", params=dict(op=op, n=2, split=[0], dup=True), bounds=dict(P=P)))
     return items
